@@ -29,7 +29,10 @@ ASSUMPTIONS = ["transposed inputs are materialised in their new order (ndarray.c
                "triggers a bottleneck 1.6.0 + numpy 2.x nanmin/nanmax bug that is not part of nci/scores",
                "FSS is not given dask input (its dask support is documented as 'forbidden' by default and not fully tested)"]
 RULE = ("registry function x generated labelled case x variant {transposition, coordinate shuffle, chunking x scheduler, Dataset, pandas}; "
-        "distinct = distinct (function, inputs, variant); non-trivial = the original call returns a finite value")
+        "distinct = distinct (function, inputs, variant); non-trivial = the original call returns a finite value; "
+        "fss-storage: random 0/1 field pairs (t,y,x) x storage {bool, float64/32/16, int64/32/8, uint8; fcst/obs alike or mixed} x "
+        "memory {C, Fortran, strided view, read-only} through fss_2d_single_field (identity operator), fss_2d_binary(check_boolean=False) "
+        "and fss_2d: equal to the FSS of the definition (exact window sums, oracle only - no Lean model), repeatable, inputs untouched")
 MANIFEST = dict(
     level="other",
     text="Layout-invariance is proved for the model (Lean: kernels commute with, and NaN-skipping reductions are invariant under, "
@@ -459,6 +462,164 @@ def extras(ctx, n):
                      expected="a Dataset", tags={"function": "diebold_mariano", "variant": "relayout"})
 
 
+# ----------------------------------------------------------------------------- binary fields: storage type / memory layout
+FSS_DTYPES = ["bool", "float64", "float32", "float16", "int64", "int32", "int8", "uint8"]
+FSS_LAYOUTS = ["C", "F", "readonly", "strided"]
+
+
+def _fss_window_sums(field, win, zero_padding):
+    """window populations of one 2-D 0/1 field (nested lists), straight from the definition; with zero padding the
+    windows are those of the implementation's documented scheme (window clipped at the border, ny+1 x nx+1 positions)"""
+    ny, nx = len(field), len(field[0])
+    h, w = win
+    out = []
+    if zero_padding:
+        hh, hw = h // 2, w // 2
+        rh, rw = h - hh, w - hw
+        for i in range(ny + 1):
+            r0, r1 = min(max(i - hh, 0), ny), min(max(i + rh, 1), ny)
+            for j in range(nx + 1):
+                c0, c1 = min(max(j - hw, 0), nx), min(max(j + rw, 1), nx)
+                out.append(sum(field[r][c] for r in range(r0, r1) for c in range(c0, c1)))
+    else:
+        for i in range(ny - h + 1):
+            for j in range(nx - w + 1):
+                out.append(sum(field[r][c] for r in range(i, i + h) for c in range(j, j + w)))
+    return out
+
+
+def _fss_reference(fs, os_, win, zero_padding):
+    """FSS of a list of 2-D field pairs (aggregated over the list the way the library documents: the three power sums
+    are averaged per field and combined once), in exact integer arithmetic up to the final quotient"""
+    from fractions import Fraction
+    pf = po = pd_ = Fraction(0)
+    for f, o in zip(fs, os_):
+        wf, wo = _fss_window_sums(f, win, zero_padding), _fss_window_sums(o, win, zero_padding)
+        n = len(wf)
+        pf += Fraction(sum(a * a for a in wf), n)
+        po += Fraction(sum(b * b for b in wo), n)
+        pd_ += Fraction(sum((a - b) ** 2 for a, b in zip(wf, wo)), n)
+    if pf + po <= 0:
+        return 0.0
+    return float(max(min(1 - pd_ / (pf + po), 1), 0))
+
+
+def _fss_store(vals, dtype, layout):
+    """the same 0/1 values as an ndarray of the given storage type and memory layout"""
+    a = np.array(vals, dtype=np.dtype(dtype))
+    if layout == "F":
+        a = np.asfortranarray(a)
+    elif layout == "strided":
+        big = np.zeros(tuple(2 * s for s in a.shape), dtype=a.dtype)
+        view = big[tuple(slice(None, None, 2) for _ in a.shape)]
+        view[...] = a
+        a = view
+    elif layout == "readonly":
+        a = a.copy()
+        a.setflags(write=False)
+    return a
+
+
+def _fss_storage_case(ctx, case):
+    """one labelled pair of binary fields (dims t, y, x), evaluated in every listed storage: the FSS is a function of the
+    0/1 VALUES — not of the dtype that stores them, not of the memory layout, not of how often the call was made — and
+    no call touches the arrays it was given"""
+    from scores.spatial import fss_2d, fss_2d_binary, fss_2d_single_field
+    from scores.utils import left_identity_operator
+    f, o = case["fcst"], case["obs"]
+    win, zp = tuple(case["window"]), bool(case["zero_padding"])
+    nt, ny, nx = len(f), len(f[0]), len(f[0][0])
+    coords = {"t": list(range(nt)), "y": list(range(ny)), "x": list(range(nx))}
+    ref_t = [_fss_reference([f[k]], [o[k]], win, zp) for k in range(nt)]
+    ref_all = _fss_reference(f, o, win, zp)
+
+    def fail(site, sig, stor, observed, expected):
+        ctx.fail("fss-storage", "property", site, sig, dict(case, storage=stor), observed=observed, expected=expected,
+                 tags={"function": site, "variant": "storage", "storage": "/".join(stor[:2])}, theorem="aggregate_layout_invariant")
+
+    for stor in case["storages"]:
+        fd, od, layout = stor
+        ctx.case("fss-storage", {"case": core.case_hash(case), "storage": stor})
+        ctx.tag("variant:fss-storage:" + fd)
+        ctx.tag("variant:fss-layout:" + layout)
+        # ---- numpy entry point, one field pair at a time, identity threshold operator
+        for k in range(nt):
+            fa, oa = _fss_store(f[k], fd, layout), _fss_store(o[k], od, layout)
+            f0, o0 = np.array(fa, copy=True), np.array(oa, copy=True)
+            try:
+                with np.errstate(all="ignore"):
+                    r1 = float(fss_2d_single_field(fa, oa, event_threshold=-999.0, window_size=win, zero_padding=zp,
+                                                   threshold_operator=left_identity_operator))
+                    r2 = float(fss_2d_single_field(fa, oa, event_threshold=-999.0, window_size=win, zero_padding=zp,
+                                                   threshold_operator=left_identity_operator))
+            except Exception as ex:
+                fail("fss_2d_single_field", "exception:" + core.exc_class(ex), stor + [k], str(ex)[:200], ref_t[k])
+                continue
+            if not (np.array_equal(fa, f0) and np.array_equal(oa, o0) and fa.dtype == f0.dtype and oa.dtype == o0.dtype):
+                fail("fss_2d_single_field", "input-mutated", stor + [k],
+                     {"fcst": np.asarray(fa, dtype=float).tolist(), "obs": np.asarray(oa, dtype=float).tolist()}, "inputs unchanged")
+            if not core.close_ff(r1, r2):
+                fail("fss_2d_single_field", "value-depends-on-repeat", stor + [k], {"first": r1, "second": r2}, ref_t[k])
+            elif not core.close_ff(r1, ref_t[k]):
+                fail("fss_2d_single_field", "value-depends-on-storage", stor + [k], r1, ref_t[k])
+        # ---- labelled entry points: per field (preserve t) and aggregated over t
+        for req, ref in (({"preserve_dims": [R.fresh("t")]}, ref_t), ({}, [ref_all])):
+            fa = xr.DataArray(_fss_store(f, fd, layout), dims=["t", "y", "x"], coords=coords)
+            oa = xr.DataArray(_fss_store(o, od, layout), dims=["t", "y", "x"], coords=coords)
+            f0, o0 = fa.copy(deep=True), oa.copy(deep=True)
+            calls = [("fss_2d_binary", lambda: fss_2d_binary(fa, oa, window_size=win, spatial_dims=(R.fresh("y"), R.fresh("x")),
+                                                             zero_padding=zp, check_boolean=(fd == "bool" and od == "bool"), **req))]
+            if fd != "bool" and od != "bool":
+                calls.append(("fss_2d", lambda: fss_2d(fa, oa, event_threshold=0.5, window_size=win, zero_padding=zp,
+                                                       spatial_dims=(R.fresh("y"), R.fresh("x")), **req)))
+            for site, fn in calls:
+                try:
+                    import warnings
+                    with warnings.catch_warnings(), np.errstate(all="ignore"):
+                        warnings.simplefilter("ignore")
+                        r1 = fn()
+                        r2 = fn()
+                    if "t" in r1.dims:
+                        r1, r2 = r1.sel(t=coords["t"]), r2.sel(t=coords["t"])
+                    v1 = [float(x) for x in np.asarray(r1.values, dtype=float).ravel()]
+                    v2 = [float(x) for x in np.asarray(r2.values, dtype=float).ravel()]
+                except Exception as ex:
+                    fail(site, "exception:" + core.exc_class(ex), stor + [sorted(req)], str(ex)[:200], ref)
+                    continue
+                if not (np.array_equal(fa.values, f0.values) and np.array_equal(oa.values, o0.values)
+                        and fa.dtype == f0.dtype and oa.dtype == o0.dtype):
+                    fail(site, "input-mutated", stor + [sorted(req)], "input DataArray values changed", "inputs unchanged")
+                if len(v1) != len(ref) or len(v2) != len(ref):
+                    fail(site, "value-depends-on-storage", stor + [sorted(req)], v1, ref)
+                elif not all(core.close_ff(a, b) for a, b in zip(v1, v2)):
+                    fail(site, "value-depends-on-repeat", stor + [sorted(req)], {"first": v1, "second": v2}, ref)
+                elif not all(core.close_ff(a, b) for a, b in zip(v1, ref)):
+                    fail(site, "value-depends-on-storage", stor + [sorted(req)], v1, ref)
+
+
+def fss_storage(ctx, n):
+    """binary event fields in every storage a caller may hold them in: bool, 0/1 floats of three widths, 0/1 integers;
+    C / Fortran / strided-view / read-only memory; fcst and obs stored alike or differently"""
+    rng = ctx.rng
+    for it in range(n):
+        nt, ny, nx = rng.choice([1, 2, 3]), rng.randint(1, 5), rng.randint(1, 5)
+        if rng.random() < 0.3:
+            nx = ny                   # square fields: a transposed table passes every shape check
+        win = [rng.randint(1, ny), rng.randint(1, nx)]
+        p = rng.choice([0.0, 0.2, 0.5, 0.8, 1.0])
+        f = [[[int(rng.random() < p) for _ in range(nx)] for _ in range(ny)] for _ in range(nt)]
+        o = [[[(f[k][i][j] if rng.random() < 0.5 else int(rng.random() < 0.5)) for j in range(nx)] for i in range(ny)] for k in range(nt)]
+        if rng.random() < 0.15:
+            o = copy.deepcopy(f)      # perfect forecast
+        # every storage type is visited in rotation (alike for fcst and obs), plus one mixed pair
+        d = FSS_DTYPES[it % len(FSS_DTYPES)]
+        storages = [["bool", "bool", "C"], [d, d, FSS_LAYOUTS[(it // len(FSS_DTYPES)) % len(FSS_LAYOUTS)]],
+                    ["float64", "float64", rng.choice(FSS_LAYOUTS)],
+                    [rng.choice(FSS_DTYPES), rng.choice(FSS_DTYPES), rng.choice(FSS_LAYOUTS)]]
+        case = {"function": "fss-storage", "fcst": f, "obs": o, "window": win, "zero_padding": rng.random() < 0.5, "storages": storages}
+        _fss_storage_case(ctx, case)
+
+
 def correspondence(ctx):
     """layout tie of the model: Lean scoreEval on a pointwise array handed over in a PERMUTED dimension order
     equals the implementation's aggregate (Arr.get is by name, not by position)"""
@@ -508,11 +669,19 @@ def oracle(ctx, boost):
     fanout(ctx, ctx.n(1, 6) * (3 if boost else 1))
     pandas_variants(ctx, ctx.n(40, 400))
     extras(ctx, ctx.n(15, 150) * (3 if boost else 1))
+    fss_storage(ctx, ctx.n(48, 400) * (3 if boost else 1))
 
 
 def replay(ctx, payload):
     c = core.Ctx("C04", "quick", payload.get("seed", 0))
     site = payload.get("site", "")
+    if payload.get("batch") == "fss-storage":
+        case = dict(payload["case"])
+        stor = case.pop("storage", None)
+        if stor:
+            case["storages"] = [stor[:3]]
+        _fss_storage_case(c, case)
+        return any(f["site"] == site and f["signature"] == payload.get("signature") for f in c.failures)
     if site in ("isotonic_fit", "cdf_envelope", "flip_flop_index", "encompassing_sector_size", "diebold_mariano"):
         extras(c, 60)
         return any(f["site"] == site for f in c.failures)
